@@ -889,6 +889,8 @@ def main(argv):
         "rule names are byte strings < 128 (tolower/whitespace of the C locale)",
         "ONE tolerance for every nominal-degree check, Lean and oracle alike: |sum w_i x_i^e - I(e)| <= 2^-40 "
         "(C14.momentOK_iff_rat / C14.tables_exact_rat); Gauss-type tables are the rounded doubles of the source",
-        "refinement theorem kernel-checked up to degree 39 (lines), 20 (triangles), 8 (tetrahedra), 16 (squares), "
-        "8 (cubes); beyond that (squares/cubes) only the exactq stream and the oracle"],
+        "refinement keeps the degree: proved for ALL degrees on intervals, squares and cubes "
+        "(C14.refine_keeps_every_degree); triangles up to degree 20 and tetrahedra up to 8 (their maximal nominal "
+        "degrees, kernel-checked subdivision identity, C14.refine_keeps_degree); structural facts of all refineries "
+        "(weight factor = |det| of the child map, factors sum to 1) in C14.refinery_structure"],
         extra_cov=dict(gen_info, rule=rule))
